@@ -2,8 +2,8 @@
      reload_origin   where every context of the resulting table comes from;
      untouched_spec  what is outside the declarative discard set keeps its identity;
      no_stale_after_default / star_discards_all / history lifting. *)
-From PV Require Import Common.Util Life.ReloadBase Gen.ReloadConsts Life.Modules Life.Reload Life.ReloadPlanSpec
-  Proofs.LifeReloadBase Proofs.LifeClosure Proofs.LifePlan Proofs.LifeUntouched Proofs.LifeExec Proofs.LifeDiscover.
+From PV Require Import Common.Util Life.ReloadBase Gen.ReloadConsts Life.Modules Life.Reload Life.ReloadPlanSpec Life.ReloadSpec
+  Proofs.LifeReloadBase Proofs.LifeClosure Proofs.LifePlan Proofs.LifeUntouched Proofs.LifeExec Proofs.LifeDiscover Proofs.LifeDiscoverDoc.
 From Coq Require Import Lia.
 
 Lemma uniq_map_names (g : gctx -> gctx) st : (forall c, c_name (g c) = c_name c) -> uniq_ctx st -> uniq_ctx (map g st).
@@ -251,6 +251,55 @@ Proof.
   { induction l' as [|y l' IHl]; intros w'; cbn [fold_left]; [apply incl_refl|].
     eapply incl_tran; [apply (load_one_ev dv t born w' y)|apply IHl]. }
   apply Hmono. apply (load_one_ev dv t born w s).
+Qed.
+
+(* C10, lower bound of the post-state: after a default or '*' reload every discovered auto-loaded file is either
+   executed by this reload (at its current generation) or was loaded before and is outside the discard set (then
+   C10_untouched keeps it) *)
+Lemma same_files_fwd fs fs' s : same_files fs fs' -> In s fs -> exists b, In (sf_set_force b s) fs'.
+Proof.
+  induction 1 as [|x x' fs fs' [b ->] H IH]; intros HI; [destruct HI|].
+  destruct HI as [->|HI]; [exists b; cbn; auto|]. destruct (IH HI) as (b' & Hb). exists b'. cbn; auto.
+Qed.
+
+Lemma InWidened_under st fs a n : InWidened st fs a n -> under_roots widen_roots n = true.
+Proof.
+  intros (r & (n0 & Hu0 & <- & _) & Hp). apply (prefix_root2 widen_roots n0 n Hu0) in Hp. apply Hp.
+Qed.
+
+Theorem autoload_complete born st t k a s :
+  uniq_ctx st -> acyclic st -> (forall n, a <> RName n) -> In s (discover t k) -> sf_auto s = true ->
+  In (sf_name s, sf_gen s) (r_ev (reload all_off born st t k a))
+  \/ (exists c, In c st /\ c_name c = sf_name s /\ in_ctx_roots (c_name c) = true
+        /\ ~ Discard st (discover t k) a (sf_name s) /\ ~ Forced0 st (discover t k) a (sf_name s)).
+Proof.
+  intros Hu Hac Ha Hs Hau. set (fs := discover t k) in *. set (n := sf_name s).
+  pose proof (plan_ok_full all_off st fs a Ha) as Eok.
+  destruct (plan_exact st fs a Hac (discover_fresh t k) (discover_uniq t k) (ctx_all_uniq st Hu) Eok) as (_ & Hsame & Hd & HF).
+  destruct (same_files_fwd _ _ s Hsame Hs) as (b & Hs').
+  destruct b.
+  - left. apply (reload_reexecutes all_off born st t k a (sf_set_force true s) Eok). apply load_list_In. cbn. auto.
+  - right. assert (HnF : ~ Forced st fs a (sf_set_force false s)).
+    { intros H. apply (HF _ Hs') in H. discriminate. }
+    assert (Hroot : InWidened st fs a n -> False).
+    { intros HW. apply HnF. left. split; [exact HW|]. apply InWidened_under in HW.
+      apply (auto_root_file t k s Hs Hau HW). }
+    assert (HnF1 : ~ Forced1 st fs a n) by (intros H; apply HnF; right; split; [exact Hroot|exact H]).
+    assert (HnF0 : ~ Forced0 st fs a n) by (intros H; apply HnF1; left; exact H).
+    assert (Hdisk : sf_has fs n = true) by (apply sf_has_In; apply in_map; exact Hs).
+    assert (Hfind : sf_find fs n = Some s) by (apply sf_find_uniq; [apply discover_uniq|exact Hs]).
+    destruct (in_dec (list_eq_dec N.eq_dec) n (map c_name (ctx_all st))) as [Hl|Hnl].
+    + apply in_map_iff in Hl. destruct Hl as (c & En & Hc). apply ctx_all_In in Hc. destruct Hc as [Hc Hr].
+      exists c. split; [exact Hc|]. split; [exact En|]. split; [exact Hr|]. split; [|exact HnF0].
+      intros [[Hch|Himp]|[HW _]]; [| |exact (Hroot HW)].
+      * destruct a as [| |m]; [| |exfalso; apply (Ha m); reflexivity]; unfold Changed in Hch.
+        -- destruct Hch as [_ [Hnd|(c2 & s2 & Hc2 & En2 & Fs2 & Hchg)]]; [apply Hnd; exact Hdisk|].
+           apply HnF0. unfold Forced0. exists s2. split; [exact Fs2|]. left. exists c2. auto.
+        -- apply HnF0. exact Hdisk.
+      * apply HnF1. right. split; [exact Himp|exact Hdisk].
+    + exfalso. apply HnF0. destruct a as [| |m]; [| |exfalso; apply (Ha m); reflexivity]; unfold Forced0.
+      * exists s. split; [exact Hfind|]. right. split; [exact Hnl|exact Hau].
+      * exact Hdisk.
 Qed.
 
 (* ---------- histories: the per-reload theorems hold at every step of every sequence of reloads ---------- *)
